@@ -40,7 +40,17 @@ fn pick_mode(rng: &mut Rng, l: f64) -> Mode {
             1 => rng.int(3, 12) as usize,
             _ => rng.int(12, 500) as usize,
         }),
-        1 => Mode::Spacing(l / rng.range(2.2, 60.0)),
+        1 => Mode::Spacing(match rng.below(4) {
+            // the curve length is a whole number of spacings (exactly, or up to rounding of l / k and of
+            // the accumulated positions): the leftover to be split between the two margins is zero or
+            // one full spacing, the boundary of "centred with margins smaller than one spacing"
+            0 => l / rng.int(2, 64) as f64,
+            1 => {
+                let s = *rng.pick(&[0.125, 0.25, 0.5, 1.0, 2.0, 0.1, 0.2, 0.3]);
+                if l / s >= 2.0 && l / s <= 4000.0 { s } else { l / rng.int(2, 64) as f64 }
+            }
+            _ => l / rng.range(2.2, 60.0),
+        }),
         _ => Mode::MaxSpacing(l / match rng.below(4) {
             0 => rng.int(1, 9) as f64,
             1 => rng.range(0.3, 1.0),
@@ -88,8 +98,12 @@ fn judge(
             if *s <= 100.0 * tol {
                 return;
             }
-            // centred: equal margins, smaller than one spacing
-            v.require((front_len - (l - back_len)).abs() <= 1e-9 * scale, "resample_spacing.equal_margins", || format!("front {front_len:e} back {:e}", l - back_len));
+            // centred: equal margins, smaller than one spacing.  On a closed curve whose length is a whole
+            // number of spacings the sample at L coincides with the sample at 0 and is merged into it by
+            // the curve constructor: margins (0, 0) are then observed as (0, one spacing) - the same
+            // evenly spaced point set around the loop
+            let seam_merge = closed && front_len.abs() <= 1e-9 * scale && ((l - back_len) - s).abs() <= 1e-6 * s + 1e-9 * scale;
+            v.require(seam_merge || (front_len - (l - back_len)).abs() <= 1e-9 * scale, "resample_spacing.equal_margins", || format!("front {front_len:e} back {:e}", l - back_len));
             v.require(front_len < *s * (1.0 + 1e-9) && front_len >= -1e-12, "resample_spacing.margin_smaller_than_spacing", || format!("{front_len:e} vs {s:e}"));
             if n_new >= 2 {
                 let got = (back_len - front_len) / (n_new as f64 - 1.0);
@@ -146,7 +160,12 @@ fn resample2(rng: &mut Rng) {
             let spacing_closed = c.is_closed() && matches!(mode, Mode::Spacing(_));
             let reclosed = spacing_closed && rc.points()[rc.count() - 1] == rc.points()[0];
             let last_sample = if reclosed { rc.points()[rc.count() - 2] } else { rc.at_back().point() };
-            let bl = c.at_closest_to_point(&last_sample).length_along();
+            let mut bl = c.at_closest_to_point(&last_sample).length_along();
+            // on a closed curve a last sample sitting on the seam is reported at length 0 by the
+            // closest-point query; it was placed at length L
+            if c.is_closed() && rc.count() >= 2 && bl <= 1e-9 * (1.0 + l) {
+                bl = l;
+            }
             let n_samples = if reclosed { rc.count() - 1 } else { rc.count() };
             // vertex counts and along-curve spacings are judged on curves that do not come back onto
             // themselves (there, two samples at different arc lengths can coincide in space and
